@@ -55,6 +55,7 @@ use super::*;
 //@include prelude/completion_ctx_spec.rs
 //@include prelude/completion_ctx_l2.rs
 //@include prelude/completion_shims.rs
+//@include prelude/position_containing.rs
 } // mod pre
 use pre::*;
 
@@ -293,6 +294,44 @@ impl FixtureDatabase {
     }
 @after params 1
     proof { assert(str_views(params@) =~= declared_names(*args)); }
+@*/
+
+/*@ extract src/fixtures/resolver.rs find_function_containing_line
+@tags C04 C11
+@ret r
+@sig
+    requires is_line_index(ints(line_index@)),
+    ensures opt_sv(r) == cf_stmt(*stmt, target_line, line_index@),
+    decreases stmt,
+@loopvar 1 it
+@loop 1
+    invariant it.seq() == class_def.body@.as_ref(), is_line_index(ints(line_index@)),
+        *stmt == Stmt::ClassDef(*class_def),
+        cf_from(class_def.body@, 0, target_line, line_index@) == cf_from(class_def.body@, it.index@ as int, target_line, line_index@),
+@loopstart 1
+    proof { let i = it.index@ as int; assert(*class_stmt == class_def.body@[i]);
+        assert(decreases_to!(class_def.body@ => class_def.body@[i]));
+        assert(cf_from(class_def.body@, i, target_line, line_index@)
+            == opt_or(cf_stmt(*class_stmt, target_line, line_index@), cf_from(class_def.body@, i + 1, target_line, line_index@))); }
+@*/
+
+/*@ extract src/fixtures/resolver.rs find_containing_function
+@tags C04 C11
+@ret r
+@sig
+    ensures opt_sv(r) == spec_containing(self.content_of(pv(file_path)), line),
+@loopvar 1 it
+@loop 1
+    invariant it.seq() == module.body@.as_ref(), is_line_index(ints((*line_index)@)), (*line_index)@ == src_line_index((*content)@),
+        self.content_of(pv(file_path)) == Some((*content)@), parse_ok((*content)@), *parsed == ast_of((*content)@),
+        *parsed == rustpython_parser::ast::Mod::Module(*module),
+        cf_from(module.body@, 0, line, (*line_index)@) == cf_from(module.body@, it.index@ as int, line, (*line_index)@),
+@loopstart 1
+    proof { let i = it.index@ as int; assert(*stmt == module.body@[i]);
+        assert(cf_from(module.body@, i, line, (*line_index)@)
+            == opt_or(cf_stmt(*stmt, line, (*line_index)@), cf_from(module.body@, i + 1, line, (*line_index)@))); }
+@return 1
+    assert(cf_from(module.body@, 0, line, (*line_index)@) == Some(name@));
 @*/
 
 /*@ extract src/fixtures/resolver.rs get_function_completion_context
